@@ -9,7 +9,7 @@ VERIF = os.path.dirname(os.path.dirname(os.path.abspath(__file__)))
 COQ = os.path.join(VERIF, 'coq')
 REPO = os.environ.get('VERIF_REPO', '/repo')
 SEED = int(os.environ.get('VERIF_SEED', '0') or 0)
-BUILD = os.path.join(VERIF, '_build')          # scratch for generated case files (ignored by git)
+BUILD = os.environ.get('VERIF_BUILD') or os.path.join(VERIF, '_build')          # scratch for generated case files (ignored by git)
 COQ_FLAGS = ['-Q', os.path.join(COQ, 'theories'), 'LD', '-Q', os.path.join(COQ, 'props'), 'LD.P',
              '-w', '-notation-overridden,-deprecated-hint-without-locality,-deprecated']
 NPROC = min(16, os.cpu_count() or 4)
